@@ -15,6 +15,8 @@
 import SomeipModel.Lemmas.LoopInv
 import SomeipModel.Lemmas.DeadlineInv
 import SomeipModel.Props.C09Global
+import SomeipModel.Lemmas.SubDeadline
+import SomeipModel.Props.C09SubGlobal
 import SomeipModel.Props.C05Global
 namespace Someip
 open Stack
@@ -106,5 +108,40 @@ example : (runAll {} [.input (.watchAll 0), .input (.dgram 5 false offerTtl3), .
     (fun s => (s.loop.timers.map (fun t => t.deadline), s.refreshLog.map (fun p => (p.2.2.1, p.2.2.2)))) =
     some ([2000], [(0, 3), (1000, 1)]) := by
   decide +kernel
+
+/-! ### the deadline of a subscription's expiry handle (C06 / C09 for the per-instance stores) -/
+
+theorem inv7_runAll (s s' : Stack) (es : List Event) (h : runAll s es = some s') (hi : Inv7 s) : Inv7 s' := by
+  induction es generalizing s with
+  | nil => simp [runAll] at h; subst h; exact hi
+  | cons e t ih =>
+    simp only [runAll] at h
+    split at h
+    · cases h
+    · rename_i s1 hs
+      exact ih s1 h (inv7_step s s1 e hs hi)
+
+/-- in every reachable state a scheduled expiry handle of a subscription (instance i, address a, key k) has the deadline
+`T + ttl` seconds, where (T, ttl) is the MOST RECENT Subscribe stored under that handle identity -/
+theorem c09_sub_deadline_is_last_subscribe_plus_ttl (s0 s : Stack) (es : List Event) (ho : s0.outs = [])
+    (hs : ∀ x ∈ s0.instances, x.subs = []) (htm : s0.loop.timers = []) (hr : ∀ r ∈ s0.loop.ready, isSubExpiry r.cb = false)
+    (hrun : runAll s0 es = some s) (t : Timer Cb) (ht : t ∈ s.loop.timers) (i : Nat) (a : Addr) (k : SubKey)
+    (hcb : t.cb = .expiredSub i a k) :
+    ∃ T ttl, lastArm s.armLog (isSubExpiryFor i a k) = some (T, ttl) ∧ t.deadline = T + ttl * TICKS_PER_S := by
+  have hi0 : Inv7 s0 := ⟨inv6_init s0 ho hs (by intro t ht; rw [htm] at ht; cases ht) hr, by intro t ht; rw [htm] at ht; cases ht⟩
+  exact (inv7_runAll s0 s es hrun hi0).2 t ht i a k hcb
+
+/-- EXACTLY ON TIME: when the expiry handle of a subscription fires, the clock reads exactly (time of the most recent
+Subscribe stored for it) + (its TTL) -/
+theorem c09_sub_expiry_exactly_ttl_after_last_subscribe (s0 s : Stack) (es : List Event) (ho : s0.outs = [])
+    (hs : ∀ x ∈ s0.instances, x.subs = []) (htm : s0.loop.timers = []) (hr : ∀ r ∈ s0.loop.ready, isSubExpiry r.cb = false)
+    (hrun : runAll s0 es = some s) (q : Nat) (l : Loop Cb) (hf : s.loop.fire q = some l)
+    (t : Timer Cb) (hfind : s.loop.timers.find? (fun t => decide (t.seq = q)) = some t) (i : Nat) (a : Addr) (k : SubKey)
+    (hcb : t.cb = .expiredSub i a k) :
+    ∃ T ttl, lastArm s.armLog (isSubExpiryFor i a k) = some (T, ttl) ∧ s.loop.now = T + ttl * TICKS_PER_S := by
+  obtain ⟨t', h1, h2⟩ := c09_fires_exactly_at_deadline s0 s es htm hrun q l hf
+  rw [hfind] at h1; cases h1
+  obtain ⟨T, ttl, h3, h4⟩ := c09_sub_deadline_is_last_subscribe_plus_ttl s0 s es ho hs htm hr hrun t (List.mem_of_find?_eq_some hfind) i a k hcb
+  exact ⟨T, ttl, h3, by rw [← h2]; exact h4⟩
 
 end Someip
